@@ -59,7 +59,7 @@ def check(ctx):
         if e["ev"] == "cmd_ret":
             kinds[e["kind"]] = kinds.get(e["kind"], 0) + 1
     ctx.cov["returns_by_kind"] = kinds
-    if not kinds.get("resp") or not kinds.get("timeout"):
+    if (not kinds.get("resp") or not kinds.get("timeout")) and not ctx.viol:
         raise vlib.ToolFailure("driver produced no responses or no time-outs: %s" % kinds)
     ctx.cov["rule"] = ("MC_Conn: all interleavings of callers, manager, writer, timers and a responding terminal for the stated capacities; "
                        "OwnResponse, WrittenOnce, ResultsSane. Live: 3 concurrent callers per scripted terminal (responses prompt, late, duplicated, "
